@@ -2,7 +2,7 @@ use std::collections::LinkedList;
 
 use rayon::prelude::*;
 
-use crate::core::consensus::transaction::Transaction;
+use crate::core::consensus::transaction::{Transaction, TransactionType};
 use crate::core::defs::SaitoHash;
 use crate::core::util::crypto::hash;
 use crate::iterate_mut;
@@ -72,7 +72,9 @@ impl MerkleTree {
 
         // Create leaves for the Merkle tree
         for (index, tx) in transactions.iter().enumerate() {
-            if tx.txs_replacements > 1 {
+            // (only a placeholder stands for other transactions: on any other transaction the field is
+            // whatever its sender wrote there)
+            if tx.transaction_type == TransactionType::SPV && tx.txs_replacements > 1 {
                 for _ in 0..tx.txs_replacements {
                     leaves.push_back(Box::new(MerkleTreeNode::new(
                         NodeType::Transaction { index },
